@@ -56,6 +56,8 @@ class NgapEnc(Stream):
         if getattr(self, "search", False):
             per_msg = 12            # a proof obligation broke: look harder for a value that exhibits it
         per_root = 2 if tier == "quick" else 10
+        if getattr(self, "search", False):
+            per_root = 40
         msgs = A.ngap_messages(S)
         for rep in range(per_msg):
             for (cls, j, code, name) in msgs:
